@@ -25,6 +25,24 @@ func init() {
 			return
 		}
 		c.rulesC03(a, c.lockAnalysis())
+		// a vetoed state may be dropped from the target (instead of cancelling
+		// the whole transition) only for an Auto state of an auto mutation:
+		// otherwise a manual mutation is half-applied and still reports Executed
+		c.rule("C03.part", "dropping a single vetoed state from the transition target is confined to IsAuto() && State.Auto (any other veto cancels the whole transition)")
+		save := len(c.Obligs)
+		und := c.Undecided
+		c.vetoRules(a)
+		var keep []*Oblig
+		for _, o := range c.Obligs[save:] {
+			if o.Rule == "C07.part" {
+				o.Rule = "C03.part"
+				keep = append(keep, o)
+			}
+		}
+		c.Obligs = append(c.Obligs[:save], keep...)
+		c.Undecided = und
+		delete(c.RuleDesc, "C05.veto")
+		c.floor("C03.part", 4)
 	})
 }
 
@@ -47,6 +65,7 @@ func init() {
 		a := c.core()
 		if a.ok {
 			c.rulesC05(a)
+			c.rulesC05x(a)
 		}
 	})
 	register("C07", propInfo{
@@ -103,6 +122,7 @@ func init() {
 		a := c.core()
 		if a.ok {
 			c.rulesC08(a)
+			c.rulesC08ver()
 			c.rule("C08.imm", "fault recovery never mutates in place a slice aliasing Machine.activeStates (the old set is needed to decide which states tick during rollback)")
 			c.inPlaceAliasLint("C08.imm", a.fActive, []string{pm}, 5)
 		}
@@ -128,6 +148,7 @@ func init() {
 		a := c.core()
 		if a.ok {
 			c.rulesC02(a)
+			c.rulesC02x(a)
 		}
 	})
 }
